@@ -279,7 +279,7 @@ func (rt *rtCtx) doJob(j rtJob) {
 			}
 		}
 		nEval++
-		if nEval&63 == 0 || f != nil {
+		if nEval&7 == 0 || f != nil || len(w.data) > 4096 {
 			g.Touch()
 		}
 		h := base
